@@ -230,3 +230,31 @@ package turn
 // ---- C18: lock discipline ("guarded by") of the client's own fields
 //@ guarded turn/v5.Client.relayedConn by turn/v5.Client.mutex
 //@ guarded turn/v5.Client.tcpAllocation by turn/v5.Client.mutex
+
+// ---- C06/C07 (configuration defaults): the timeouts a Server applies are the configured ones, or the documented
+// defaults when the configuration leaves them zero (channel bindings and allocations 10 min, permissions 5 min).
+// `assume-callee-pre`: run-time checks and callee preconditions of these two bodies are assumed (goroutine start-up,
+// manager construction); the clauses about the resulting field values are verified.
+//@ func (*ServerConfig).validate
+//@   nobody
+//@   pure
+
+//@ func (*Server).createAllocationManager
+//@   assume-callee-pre
+//@   requires s != nil
+//@   ensures res1 == nil ==> res0 != nil
+//@   assigns s.allocationManagers, mem(s.allocationManagers)
+
+//@ spec func serverDefaults(s *Server, cbt int, pt int, al int, mtu int) bool = int(s.channelBindTimeout) == (cbt != 0 ? cbt : int(proto.DefaultLifetime)) && int(s.permissionTimeout) == (pt != 0 ? pt : int(allocation.DefaultPermissionTimeout)) && int(s.allocationLifetime) == (al != 0 ? al : int(proto.DefaultLifetime)) && s.inboundMTU == (mtu != 0 ? mtu : defaultInboundMTU) && s.nonceHash != nil
+//@ func NewServer
+//@   assume-callee-pre
+//@   ensures [C06,C07:configured-or-default] res1 == nil ==> res0 != nil && serverDefaults(res0, int(config.ChannelBindTimeout), int(config.PermissionTimeout), int(config.AllocationLifetime), config.InboundMTU)
+//@   ensures [C03:handlers-as-configured] res1 == nil ==> res0.authHandler == config.AuthHandler && res0.realm == config.Realm
+//@   loop 0 invariant server != nil && fresh(server)
+//@   loop 0 invariant int(server.channelBindTimeout) == (int(config.ChannelBindTimeout) != 0 ? int(config.ChannelBindTimeout) : int(proto.DefaultLifetime))
+//@   loop 0 invariant int(server.permissionTimeout) == (int(config.PermissionTimeout) != 0 ? int(config.PermissionTimeout) : int(allocation.DefaultPermissionTimeout))
+//@   loop 0 invariant int(server.allocationLifetime) == (int(config.AllocationLifetime) != 0 ? int(config.AllocationLifetime) : int(proto.DefaultLifetime))
+//@   loop 0 invariant server.inboundMTU == (config.InboundMTU != 0 ? config.InboundMTU : defaultInboundMTU)
+//@   loop 0 invariant server.nonceHash != nil
+//@   loop 0 invariant server.authHandler == config.AuthHandler && server.realm == config.Realm
+//@   loop 1 invariant server != nil && fresh(server) && serverDefaults(server, int(config.ChannelBindTimeout), int(config.PermissionTimeout), int(config.AllocationLifetime), config.InboundMTU) && server.authHandler == config.AuthHandler && server.realm == config.Realm
